@@ -37,7 +37,7 @@ Q01 = [("mailbox", 30000), ("backpressure", 8000), ("lifecycle", 8000), ("owning
 Q02 = [("mailbox", 16000), ("lifecycle", 16000), ("owning", 10000), ("backpressure", 4000), ("timeout", 6000), ("restart", 6000), ("faults+faults", 250), ("lifecycle+faults", 250), ("mix", 10000), ("mix+faults", 150)]
 Q03 = [("lifecycle", 24000), ("owning", 8000), ("handles", 6000), ("mailbox", 4000), ("stream", 8000), ("restart", 6000), ("timeout", 6000), ("mix", 10000)]
 Q04 = [("lifecycle", 30000), ("owning", 12000), ("mailbox", 6000), ("backpressure", 4000), ("timeout", 8000), ("restart", 4000), ("faults+faults", 250), ("lifecycle+faults", 250), ("mix", 10000), ("mix+faults", 150), ("stream", 8000)]
-Q05 = [("handles", 24000), ("lifecycle", 12000), ("owning", 6000), ("mailbox", 4000), ("broker", 8000), ("stream", 6000), ("timers", 6000), ("tree", 8000), ("svckeep", 6000), ("mix", 10000)]
+Q05 = [("handles", 24000), ("droprace", 2000), ("lifecycle", 12000), ("owning", 6000), ("mailbox", 4000), ("broker", 8000), ("stream", 6000), ("timers", 6000), ("tree", 8000), ("svckeep", 6000), ("mix", 10000)]
 Q12 = [("backpressure", 30000), ("mailbox", 10000), ("lifecycle", 4000), ("mix", 10000)]
 Q17 = [("owning", 30000), ("lifecycle", 10000), ("mailbox", 4000), ("timeout", 8000), ("restart", 8000), ("mix", 10000), ("owning+faults", 400)]
 
@@ -78,7 +78,7 @@ PLANS = {
                 "the last strong handle of an actor was dropped while it was running, or a weak handle was upgraded after that",
                 ["C05.R1.no_termination_while_held", "C05.R1.child_list_keeps_alive", "C05.R1.registry_keeps_alive", "C05.R2.last_drop_terminates", "C05.R2.with_live_timers", "C05.R2.accepted_then_handled",
                  "C05.R2.exact_time", "C05.R2.quiescent_invariant", "C05.R3.upgrade_after_last_drop", "C05.R3.monotone"],
-                mt=[('handles', 480), ('mix', 160)], mt_required=['L2:C05.R3.upgrade_after_last_drop']),
+                mt=[('handles', 480), ('mix', 160), ('droprace', 640)], mt_required=['L2:C05.R3.upgrade_after_last_drop', 'L2:C05.R1.no_termination_while_held']),
     "C12": plan(Q12, scale(Q12, 40),
                 "a send on a bounded mailbox returned Pending at least once (backpressure was exerted)",
                 ["C12.R1.send_returned", "C12.R2.send_resolves", "C12.R3.unbounded_never_waits", "C12.R4.stop_while_full"],
